@@ -453,12 +453,13 @@ def executed_before(body, start):
     return anc - body.reachable(start)
 
 
-def reach_under(body, tb, env, start=0, stop_blocks=()):
+def reach_under(body, tb, env, start=0, stop_blocks=(), removed_edges=()):
     """TABLE evaluator: blocks reachable from `start` when the atoms in env (stripped term -> value) have the given values.
     A switch whose discriminant evaluates to a definite value follows only that edge; otherwise every edge.
     Conditional evaluation: a merged value (phi) only counts the definitions made in blocks that are themselves reachable under
     env (optimistic fixpoint), so `a || b` and flag variables set on one branch are followed exactly."""
     stop_blocks = set(stop_blocks)
+    removed_edges = set(removed_edges)
     outside = None
     if start != 0:
         outside = executed_before(body, start)
@@ -489,7 +490,7 @@ def reach_under(body, tb, env, start=0, stop_blocks=()):
                             taken = t['otherwise']
                         succs = [taken]
                 for s2 in succs:
-                    if s2 not in seen:
+                    if s2 not in seen and (b, s2) not in removed_edges:
                         seen.add(s2)
                         changed = True
     finally:
@@ -582,12 +583,33 @@ def detry(t):
     if not isinstance(t, tuple) or not t:
         return t
     if t[0] == 'try':
-        return detry(t[1])
+        return success_payload(detry(t[1]))
     if t[0] == 'vfield' and t[2] == 'Continue':
         a = m_call(t[1], name='branch', trait='Try')
         if a is not None:
-            return detry(a[0])
+            return success_payload(detry(a[0]))
+    if t[0] == 'vfield' and t[2] == 'Ok' and t[3] == '0':
+        # the Ok payload read after a test of the discriminant: the success value, as with `?`
+        return success_payload(detry(t[1]))
     return tuple(detry(x) if isinstance(x, tuple) else x for x in t)
+
+
+def success_payload(x):
+    """`?` applied to an explicitly built Result/Option: Ok(v)? == v; a merge of Err(..) and Ok(v) alternatives yields v
+    (the Err alternatives leave through the residual); any other Result-valued term stands for its success value."""
+    if isinstance(x, tuple) and x:
+        if x[0] == 'agg' and x[2] in ('Ok', 'Some') and (x[1].endswith('Result') or x[1].endswith('Option')) and len(x[3]) == 1:
+            return x[3][0]
+        if x[0] == 'phi':
+            alts = [a for a in x[1] if not (isinstance(a, tuple) and a and a[0] == 'agg' and a[2] in ('Err', 'None') and (a[1].endswith('Result') or a[1].endswith('Option')))]
+            if alts and len(alts) < len(x[1]) or any(isinstance(a, tuple) and a and a[0] == 'agg' and a[2] in ('Ok', 'Some') for a in alts):
+                pay = []
+                for a in alts:
+                    p = success_payload(a)
+                    if p not in pay:
+                        pay.append(p)
+                return pay[0] if len(pay) == 1 else ('phi', tuple(sorted(pay, key=repr)))
+    return x
 
 
 def strip_into(t):
@@ -803,17 +825,39 @@ def seq_iter_parts(it, depth=0):
     return [('each', ('elem', elem_source(it)))]
 
 
+def loop_headers(body):
+    """Blocks that switch on the discriminant of an Iterator::next() result (the header of a for / while-let loop)."""
+    hs = getattr(body, '_loop_headers', None)
+    if hs is not None:
+        return hs
+    hs = []
+    next_dests = set()
+    for bi, c, t in body.calls():
+        if c is not None and c.name == 'next' and c.is_trait_method('Iterator') and not t['dest']['p']:
+            next_dests.add(t['dest']['l'])
+    for h in body.normal_blocks():
+        t = body.term(h)
+        if not t or t['k'] != 'switch':
+            continue
+        d = t['discr']
+        if d.get('k') not in ('move', 'copy') or d['place']['p']:
+            continue
+        for st in body.blocks[h]['stmts']:
+            if st['k'] == 'assign' and st['place']['l'] == d['place']['l'] and st['rv']['k'] == 'discr' and st['rv']['place']['l'] in next_dests and not st['rv']['place']['p']:
+                hs.append(h)
+    body._loop_headers = hs
+    return hs
+
+
 def loop_push_total(body, push_block, use_block):
     """A `push` inside a `for`/`while let Some(..) = it.next()` loop adds one element per iteration, for every iteration,
     and the vector is only consumed (at use_block) after the iterator is exhausted:
       (a) from the Some edge of the innermost enclosing next()-switch, the header is unreachable once the push block is removed
           (no `continue` / conditional push), and
       (b) from that edge the consumer is unreachable once the header is removed (no `break` that leaves with a partial vector)."""
-    from .terms import TermBuilder as _TB
     heads = []
-    for h in body.normal_blocks():
-        t = body.term(h)
-        if not t or t['k'] != 'switch' or not body.dominates(h, push_block) or h not in body.reachable(push_block):
+    for h in loop_headers(body):
+        if not body.dominates(h, push_block) or h not in body.reachable(push_block):
             continue
         heads.append(h)
     # innermost = dominated by every other candidate
@@ -829,7 +873,12 @@ def loop_push_total(body, push_block, use_block):
     if h in body.reachable(s, removed_blocks=[push_block]):
         return False
     uses = [use_block] if isinstance(use_block, int) else list(use_block or [])
-    away = body.reachable(s, removed_blocks=[h])
+    # leaving the loop early is only harmful when the consumer can be reached that way: follow flags / Err values set on the
+    # way out (collect::<Result<..>>() leaves with Err(e), which the following `?` turns into a return)
+    tb_ = getattr(body, '_tb', None)
+    if tb_ is None and CURRENT_FACTS[0] is not None:
+        tb_ = body._tb = TermBuilder(CURRENT_FACTS[0], body)
+    away = reach_under(body, tb_, {}, start=s, stop_blocks=[h]) if tb_ is not None else body.reachable(s, removed_blocks=[h])
     if any(u != push_block and u in away for u in uses):
         return False
     return True
@@ -1032,8 +1081,8 @@ def forall_guards(F, body, tb, accept_blocks, coll_ok):
         none = [bb for v, bb in t['targets'] if v == 0]
         if len(some) != 1 or len(none) != 1:
             continue
-        # every accept lies behind the exhausted edge of this loop
-        reach = body.reachable(0, removed_edges={(h, none[0])})
+        # every accept lies behind the exhausted edge of this loop (flags set on the way out are followed: `let ok = loop-result; if ok {..}`)
+        reach = reach_under(body, tb, {}, removed_edges={(h, none[0])})
         if any(a in reach for a in accept_blocks):
             continue
         region = {b for b in body.reachable(some[0], removed_blocks=[h]) if h in body.reachable(b)}
@@ -1122,3 +1171,102 @@ def _canon_calls(t):
         key = strip_generics(c.best) if c is not None else t[1]
         return ('call', key, tuple(_canon_calls(x) for x in t[2]))
     return tuple(_canon_calls(x) if isinstance(x, tuple) else x for x in t)
+
+
+# ---------------------------------------------------------------- "index of the first element satisfying P"
+class FirstIndex:
+    """position(iter(C), |e| P(e))  or the loop  i = 0; for e in C { if P(e) { found = Some(i); break } i += 1 }."""
+
+    def __init__(self, F, body, tb, kind, coll, **kw):
+        self.F, self.body, self.tb, self.kind, self.coll = F, body, tb, kind, coll
+        self.__dict__.update(kw)
+        self.elem = ('param', 2) if kind == 'closure' else ('elem', coll)
+
+    def atoms(self, pred):
+        if self.kind == 'closure':
+            return closure_atoms(self.F, self.clo[1], pred)
+        return ForAll.atoms(self, pred)
+
+    def hit_values(self, env):
+        """Truth values of "this element is the one found" under env."""
+        if self.kind == 'closure':
+            vals, _ = closure_return_values(self.F, self.clo[1], env)
+            if vals is None or None in vals:
+                return {True, False}
+            return set(vals)
+        R = reach_under(self.body, self.tb, env, start=self.some, stop_blocks=[self.header, self.hit])
+        out = set()
+        if self.hit in R:
+            out.add(True)
+        if self.header in R:
+            out.add(False)
+        return out
+
+    def captured(self, t):
+        if self.kind == 'closure' and isinstance(t, tuple) and t and t[0] == 'upvar' and t[1] < len(self.clo[2]):
+            return strip_sites(self.clo[2][t[1]])
+        return t
+
+
+def first_index(F, body, tb, opt_term):
+    """Recognise an Option<usize> term as the index of the first matching element of a collection. -> FirstIndex or None"""
+    st = strip_sites(detry(opt_term))
+    p = m_call(st, name='position', trait='Iterator')
+    if p is not None and len(p) == 2 and p[1][0] == 'closure':
+        return FirstIndex(F, body, tb, 'closure', strip_sites(elem_source(p[0])), clo=p[1], term=st)
+    alts = phi_alts(st)
+    somes = [a for a in alts if a[0] == 'agg' and a[1].endswith('Option') and a[2] == 'Some']
+    nones = [a for a in alts if a[0] == 'agg' and a[1].endswith('Option') and a[2] == 'None']
+    if len(somes) != 1 or len(somes) + len(nones) != len(alts):
+        return None
+    K = somes[0][3][0]
+    for h in loop_headers(body):
+        t = body.term(h)
+        some = [bb for v, bb in t['targets'] if v == 1]
+        none = [bb for v, bb in t['targets'] if v == 0]
+        if len(some) != 1 or len(none) != 1:
+            continue
+        n = len(body.blocks[h]['stmts'])
+        dt = tb.operand_term(t['discr'], h, n)
+        if not (dt[0] == 'discr' and dt[1][0] == 'next'):
+            continue
+        coll = strip_sites(dt[1][1])
+        inside = body.reachable(some[0], removed_blocks=[h])
+        region = {b for b in inside if h in body.reachable(b)}
+        for hb in sorted(inside):
+            for si, s in enumerate(body.blocks[hb]['stmts']):
+                if not (s['k'] == 'assign' and s['rv']['k'] == 'agg' and s['rv'].get('adt', '').endswith('Option') and s['rv'].get('variant') == 'Some' and len(s['rv']['fields']) == 1):
+                    continue
+                f = s['rv']['fields'][0]
+                if f.get('k') not in ('copy', 'move') or f['place']['p']:
+                    continue
+                I = f['place']['l']
+                if strip_sites(tb.operand_term(f, hb, si)) != K:
+                    continue
+                # the counter: 0 before the loop, +1 on every iteration that is not the hit
+                zero = inc = None
+                ok = True
+                for d in tb.defs(I):
+                    dbi, dsi, kind, payload = d
+                    if kind != 'assign':
+                        ok = False
+                        break
+                    rv = payload
+                    if rv['k'] == 'use' and rv['op'].get('k') == 'const' and rv['op'].get('int') == 0 and body.dominates(dbi, h) and dbi not in region:
+                        zero = dbi
+                    elif dbi in region:
+                        tv = strip_sites(tb.rvalue_term(rv, dbi, dsi))
+                        if tv[0] == 'binop' and tv[1] == 'Add' and const_int(tv[3]) == 1:
+                            inc = dbi
+                        else:
+                            ok = False
+                    else:
+                        ok = False
+                if not ok or zero is None or inc is None:
+                    continue
+                if h in body.reachable(some[0], removed_blocks=[inc, hb]):
+                    continue      # an iteration can come back to the header without counting
+                if h in body.reachable(hb, removed_blocks=[]) and hb in region:
+                    continue      # the hit does not leave the loop
+                return FirstIndex(F, body, tb, 'loop', coll, header=h, some=some[0], region=region, hit=hb, term=st)
+    return None
